@@ -1200,6 +1200,13 @@ class Intrinsic_Type_Spec(WORDClsBase):  # R403
             (pattern.abs_double_precision_name, None),
             ("BYTE", None),
         ]:
+            if cls is Kind_Selector:
+                line = string.lstrip()
+                if line[: len(w)].upper() == w and len(line[len(w) :].strip()) == 1:
+                    # A single character after the keyword cannot be a
+                    # kind selector (and Kind_Selector takes it for an
+                    # internal error), so there is no match.
+                    return None
             try:
                 obj = WORDClsBase.match(w, cls, string)
             except NoMatchError:
@@ -1994,6 +2001,9 @@ class Type_Param_Def_Stmt(StmtBase):  # R435
         if not l1 or not l2:
             return
         if kind_selector:
+            if len(kind_selector) == 1:
+                # A single character cannot be a kind selector.
+                return
             kind_selector = Kind_Selector(kind_selector)
         return kind_selector, Type_Param_Attr_Spec(l1), Type_Param_Decl_List(l2)
 
